@@ -19,7 +19,7 @@ PROP = 'C08'
 
 TIERS = {
     # runs, shuffles per input, valuations per input, wall cap of the batch (s)
-    'quick': dict(runs=40000, shuffles=2, valuations=20, wall=150, hashseed_slices=1),
+    'quick': dict(runs=40000, shuffles=2, valuations=20, wall=300, hashseed_slices=1),
     'thorough': dict(runs=400000, shuffles=6, valuations=44, wall=2400, hashseed_slices=3),
 }
 
